@@ -781,6 +781,130 @@ func genNatHole() ([]byte, error) {
 	} else {
 		trSend = []string{"?parse error"}
 	}
+	// server/control.go + pkg/msg/handler.go: a registration (NewProxy) runs inside the control's read loop, the teardown
+	// starts only after that loop has ended
+	var ctlHandlers, ctlWorker, dispRead, dispCloseDone []string
+	if fctl, err := parse("server/control.go"); err == nil {
+		if fd := funcDecl(fctl, "registerMsgHandlers"); fd != nil && fd.Body != nil {
+			for _, st := range fd.Body.List {
+				es, ok := st.(*ast.ExprStmt)
+				if !ok {
+					ctlHandlers = append(ctlHandlers, "?"+src(st))
+					continue
+				}
+				call, ok := es.X.(*ast.CallExpr)
+				if !ok || !strings.HasSuffix(src(call.Fun), "RegisterHandler") || len(call.Args) != 2 {
+					ctlHandlers = append(ctlHandlers, "?"+src(st))
+					continue
+				}
+				typ := strings.TrimSuffix(strings.TrimPrefix(src(call.Args[0]), "&msg."), "{}")
+				mode := "sync"
+				if c2, ok := call.Args[1].(*ast.CallExpr); ok {
+					if strings.HasSuffix(src(c2.Fun), "AsyncHandler") {
+						mode = "async"
+					} else {
+						mode = "?" + src(c2.Fun)
+					}
+				} else if _, ok := call.Args[1].(*ast.SelectorExpr); !ok {
+					mode = "?" + src(call.Args[1])
+				}
+				ctlHandlers = append(ctlHandlers, typ+":"+mode)
+			}
+		}
+		if fd := funcDecl(fctl, "worker"); fd != nil && fd.Body != nil {
+			for _, st := range fd.Body.List {
+				switch x := st.(type) {
+				case *ast.GoStmt:
+					ctlWorker = append(ctlWorker, "go")
+				case *ast.ExprStmt:
+					if u, ok := x.X.(*ast.UnaryExpr); ok && u.Op == token.ARROW && strings.HasSuffix(src(u.X), "msgDispatcher.Done()") {
+						ctlWorker = append(ctlWorker, "wait:dispatcher.Done")
+					} else {
+						ctlWorker = append(ctlWorker, "stmt")
+					}
+				case *ast.RangeStmt:
+					if strings.HasSuffix(src(x.X), ".proxies") {
+						ctlWorker = append(ctlWorker, "range:proxies")
+					} else {
+						ctlWorker = append(ctlWorker, "range")
+					}
+				default:
+					ctlWorker = append(ctlWorker, "stmt")
+				}
+			}
+		}
+	}
+	if fh, err := parse("pkg/msg/handler.go"); err == nil {
+		for _, d := range fh.Decls {
+			fd, ok := d.(*ast.FuncDecl)
+			if !ok || fd.Body == nil {
+				continue
+			}
+			ast.Inspect(fd.Body, func(n ast.Node) bool {
+				switch x := n.(type) {
+				case *ast.CallExpr:
+					if id, ok := x.Fun.(*ast.Ident); ok && id.Name == "close" && len(x.Args) == 1 && strings.HasSuffix(src(x.Args[0]), "doneCh") {
+						dispCloseDone = append(dispCloseDone, fd.Name.Name)
+					}
+				}
+				return true
+			})
+			if fd.Name.Name == "readLoop" {
+				ast.Inspect(fd.Body, func(n ast.Node) bool {
+					switch x := n.(type) {
+					case *ast.GoStmt:
+						dispRead = append(dispRead, "go:"+src(x.Call.Fun))
+					case *ast.ExprStmt:
+						if call, ok := x.X.(*ast.CallExpr); ok {
+							if id, ok := call.Fun.(*ast.Ident); ok && id.Name == "handler" {
+								dispRead = append(dispRead, "call:handler")
+							}
+						}
+					}
+					return true
+				})
+			}
+		}
+	}
+	// pkg/nathole/utils.go: the datagram codec of the sid messages: which calls, and any branch on the key
+	sidCodec := func(name string) []string {
+		var out []string
+		fu, err := parse("pkg/nathole/utils.go")
+		if err != nil {
+			return []string{"?parse error"}
+		}
+		fd := funcDecl(fu, name)
+		if fd == nil || fd.Body == nil {
+			return []string{"?absent"}
+		}
+		ast.Inspect(fd.Body, func(n ast.Node) bool {
+			switch x := n.(type) {
+			case *ast.IfStmt:
+				if mentions(x.Cond, "key") {
+					out = append(out, "branch-on-key:"+src(x.Cond))
+				}
+			case *ast.CallExpr:
+				f := src(x.Fun)
+				switch f {
+				case "msg.WriteMsg", "msg.ReadMsgInto", "msg.ReadMsg":
+					out = append(out, "call:"+f)
+				case "crypto.Encode", "crypto.Decode":
+					arg := ""
+					if len(x.Args) == 2 {
+						arg = src(x.Args[1])
+					}
+					out = append(out, "call:"+f+":"+arg)
+				default:
+					if strings.HasPrefix(f, "json.") || strings.HasPrefix(f, "crypto.") {
+						out = append(out, "call:"+f)
+					}
+				}
+			}
+			return true
+		})
+		return out
+	}
+	sidEnc, sidDec := sidCodec("EncodeMessage"), sidCodec("DecodeMessageInto")
 	coqStrList := func(l []string) string {
 		var q []string
 		for _, x := range l {
@@ -841,6 +965,12 @@ func genNatHole() ([]byte, error) {
 	fmt.Fprintf(&b, "Definition nh_cread_timeout : nh_expr := %s%%Z.\n", cRead)
 	fmt.Fprintf(&b, "Definition nh_staggers : list (string * Z) := [%s]%%Z.\n", strings.Join(staggers, "; "))
 	fmt.Fprintf(&b, "Definition nh_tr_send : list string := %s.\n", coqStrList(trSend))
+	fmt.Fprintf(&b, "Definition nh_ctl_handlers : list string := %s.\n", coqStrList(ctlHandlers))
+	fmt.Fprintf(&b, "Definition nh_ctl_worker : list string := %s.\n", coqStrList(ctlWorker))
+	fmt.Fprintf(&b, "Definition nh_disp_readloop : list string := %s.\n", coqStrList(dispRead))
+	fmt.Fprintf(&b, "Definition nh_disp_close_done_in : list string := %s.\n", coqStrList(dispCloseDone))
+	fmt.Fprintf(&b, "Definition nh_sid_encode : list string := %s.\n", coqStrList(sidEnc))
+	fmt.Fprintf(&b, "Definition nh_sid_decode : list string := %s.\n", coqStrList(sidDec))
 	fmt.Fprintf(&b, "Definition nh_xtcp_close : list string := %s.\n", coqStrList(xClose))
 	fmt.Fprintf(&b, "Definition nh_xtcp_run : list string := %s.\n", coqStrList(xRun))
 	fmt.Fprintf(&b, "Definition nh_xtcp_loop_calls : list string := %s.\n", coqStrList(xLoop))
